@@ -93,6 +93,13 @@ func ConvertToASTNodeSQL(exp string, qid uint64) (*structs.ASTNode, *structs.Que
 		return nil, nil, columsArray, err
 	}
 
+	// SQL has no syntax for the time range. The match-all node came with the default range
+	// (last 90 days); ParseRequest takes a range on the node for one that the query text
+	// sets and prefers it to the range of the request.
+	if astNode != nil {
+		astNode.TimeRange = nil
+	}
+
 	return astNode, aggNode, columsArray, err
 }
 
